@@ -48,7 +48,7 @@ def run(ck):
     ck.ob("C15-R1", "tryUse/single-CAS-Idle->Used", ok, f.loc, f, "return state_.compare_exchange_strong(Idle, Used)")
     cc = prog.cls(E + "Connection")
     sf = [x for x in cc["fields"] if x["name"] == "state_"]
-    ck.ob("C15-R1", "type:Connection::state_", bool(sf) and sf[0]["type"].replace(" ", "").startswith("std::atomic<"), "%s:%s" % (cc["file"], sf[0]["line"] if sf else 0), "",
+    ck.ob("C15-R1", "type:Connection::state_", bool(sf) and re.match(r"^(std::)?atomic<", (sf[0].get("ctype") or sf[0]["type"]).replace(" ", "")) is not None, "%s:%s" % (cc["file"], sf[0]["line"] if sf else 0), "",
           "declared %s" % (sf[0]["type"] if sf else "?"), nontrivial=False)
     g = lib.single(prog, POOL + "pickConnection")
     # edges on which a connection is known to be claimed: tryUse() returned true (tested directly / through a local), or a
